@@ -16,7 +16,7 @@ RULE = ('Hypothesis draws (order 1/2, filter family incl. band-pass variants, ma
         'magnitude channels >= -2*eps*bias. Non-trivial = non-zero input and (odd/non-multiple size or colour or band-pass '
         'family or bias != 1e-2). Distinct = configuration without seeds.')
 ASSUMPTIONS = ['the NumPy dtcwt package composed with the stated formulas is the reference',
-               'tolerance 1e-9*(gain*max|x| + bias) with gain 8 per DTCWT stage (magnitude and pooling are 1-Lipschitz)']
+               'tolerance 1e-11*(gain*max|x| + bias) with gain 8 per DTCWT stage (magnitude and pooling are 1-Lipschitz)']
 STRATA = {'thorough': 'order x family x colour', 'quick': ''}
 LABEL_FLOORS = {'order2': 0.3, 'order1': 0.3, 'colour': 0.2}
 
@@ -147,7 +147,7 @@ def run_case(case):
     if not np.all(np.isfinite(z)):
         return r.fail('nonfinite:order%d' % order, 'output contains non-finite values')
     g = 8.0 if order == 1 else 64.0
-    tol = 1e-9 * (g * core.maxabs(x) + bias) + 1e-300
+    tol = core.TOL64 * (g * core.maxabs(x) + bias) + 1e-300
     refs = reference(case, x, any_split=kf10)
     allrefs = list(refs)
     errs = []
